@@ -225,6 +225,31 @@ def fam_C01(rng, tier):
         s.add('SETUP')
         s.add('CONNECT ' + m.kvs([('cid', b'i' * z)]))
         out.append(s.script())
+    # every length field exactly on its encoding boundaries
+    targets = [127, 128, 16383, 16384]
+    for tg in targets:
+        cases = [
+            ('c-plen', ['SETUP', 'CONNECT ' + m.kvs([('cid', b'c'), ('up', (b'k', b'v' * (tg - 6)))])]),
+            ('c-rlen', ['SETUP', 'CONNECT ' + m.kvs([('cid', b'i' * (tg - 13))])]),
+            ('c-wplen', ['SETUP', 'CONNECT ' + m.kvs([('cid', b'c'), ('wt', b'w'), ('wp', b'p'), ('wup', (b'k', b'v' * (tg - 6)))])]),
+            ('a-plen', ['SETUP', 'AUTHORIZE ' + m.kvs([('r', 24), ('am', b'm'), ('ad', b'd' * (tg - 7))])]),
+        ]
+        for nm, ls in cases:
+            out.append((f'c01-exact-{nm}-{tg}', ls))
+        s = Sess(f'c01-exact-ops-{tg}')
+        s.connect()
+        s.publish(0, fields=[('p', b'z' * (tg - 4))], topic=b'a')
+        s.publish(1, fields=[('up', (b'k', b'v' * (tg - 6)))], topic=b'a')
+        s.subscribe([(b'f' * (tg - 8), '2000')])
+        s.unsubscribe([b'f' * (tg - 5)])
+        s.disconnect([('r', 0), ('rs', b'r' * (tg - 3))])
+        out.append(s.script())
+    if tier != 'quick':
+        for tg in [2097151, 2097152]:
+            s = Sess(f'c01-exact-ops-{tg}')
+            s.connect()
+            s.publish(0, fields=[('p', b'z' * (tg - 4))], topic=b'a')
+            out.append(s.script())
     # AUTHORIZE: all subsets
     i = 0
     for r in [None, 0, 24, 25]:
@@ -1136,8 +1161,8 @@ def fam_C13(rng, tier):
     causes = []
     for r in m.DISCONNECT_REASONS:
         causes.append(('sdisc', r))
-    causes += [('sdisc-empty', 0), ('udisc', 0), ('udisc', 0x04), ('eof', 0), ('err', 0), ('handles', 0), ('garbage', 0),
-               ('badlen', 0), ('werr', 0)]
+    causes += [('sdisc-empty', 0), ('udisc', 0), ('udisc', 0x04), ('udisc-cancelled', 0), ('eof', 0), ('err', 0), ('handles', 0),
+               ('garbage', 0), ('badlen', 0), ('werr', 0)]
     for cause, r in causes:
         for st in states():
             if tier == 'quick' and cause == 'sdisc' and r not in (0, 0x04, 0x81, 0x8b, 0xa2) and st.__name__ != 'idle':
@@ -1154,6 +1179,13 @@ def fam_C13(rng, tier):
             elif cause == 'udisc':
                 s.disconnect([('r', r)])
                 s.publish(0)         # must not be written after the DISCONNECT
+            elif cause == 'udisc-cancelled':
+                # the caller gives up on disconnect() after the request was queued: the DISCONNECT is still written
+                s.add('HOLD ctx')
+                o = s.disconnect([('r', r)])
+                s.add(f'DROP op{o}')
+                s.add('RELEASE ctx')
+                s.publish(0)
             elif cause == 'eof':
                 s.add('FEEDEOF')
             elif cause == 'err':
@@ -1245,6 +1277,21 @@ def fam_C15(rng, tier):
                    allow_poll=True)
     # every operation kind x every cancellation point
     i = 0
+    # a QoS 2 publish cancelled after it queued its PUBREL (the context has not written it yet)
+    for R in [1, 2]:
+        s = Sess(f'c15-pub2d-R{R}')
+        s.connect(connack_ps=[(33, R)])
+        op, pid = s.publish(2)
+        s.add(f'HOLD op{op}')
+        s.feed(m.ack('pubrec', pid))
+        s.add('HOLD ctx')
+        s.add(f'RELEASE op{op}')
+        s.add(f'DROP op{op}')
+        s.add('RELEASE ctx')
+        s.feed(m.ack('pubcomp', pid))
+        for _ in range(R + 1):
+            s.publish(1)
+        out.append(s.script())
     for kind in ['pub0', 'pub1', 'pub2a', 'pub2b', 'pub2c', 'sub', 'unsub', 'ping', 'disc']:
         for point in ['fresh', 'queued', 'waiting']:
             s = Sess(f'c15-{kind}-{point}-{i}')
